@@ -914,9 +914,25 @@ def main(tier):
     lib, _libdir = build_skeleton_lib(True)
     _asn1c, skel_inc = build_asn1c()
 
+    all_texts = {m["name"]: m["text"] for m in mods + wmods + fmods}
+
+    def doubled_first_tag(d):
+        """the baseline's tag vector is the build's with its first tag written twice ([2, 2, 8] vs [2, 8])"""
+        try:
+            import ast
+            a, b = ast.literal_eval(d["a"]), ast.literal_eval(d["b"])
+        except Exception:
+            return False
+        return isinstance(a, list) and isinstance(b, list) and len(b) >= 1 and a == [b[0]] + b
+
     def dclassify(n, var, diffs):
         if "-fno-constraints" in var.opts and c13_descr.only_char_map_differs(diffs):
             return "C13-no-constraints-per-alphabet"
+        # C13-explicit-tag-unsigned-member seen in the tables: the native build emits the EXPLICIT tag of an `unsigned` member twice
+        # (once in the member-specific descriptor, once in the member entry); INTEGER_t needs no such descriptor under -fwide-types
+        if "-fwide-types" in var.opts and explicit_tagged_unsigned_member(all_texts.get(n, "")) \
+           and diffs and all(d["field"] in ("tags", "all") and doubled_first_tag(d) for d in diffs):
+            return "C13-explicit-tag-unsigned-member"
         return None
     for vs, ms in ((variants, mods), (wvariants, wmods), (fvariants, fmods)):
         tabs = descriptor_tie(run, vs, [m["name"] for m in ms if m.get("exe")], {m["name"]: m["text"] for m in ms}, dclassify, skel_inc, lib, model)
